@@ -24,6 +24,7 @@ type Workload struct {
 	Seed    uint64 `json:"seed"`
 	G       int    `json:"g"`
 	Windows int    `json:"windows"`
+	Box     bool   `json:"box,omitempty"` // store the values boxed in an uncomparable struct type
 }
 
 // WOp is one completed call of a window.
@@ -69,7 +70,7 @@ var queryPaths = [][]string{
 func walkAll(t *ctree.Tree) []LeafObs {
 	var out []LeafObs
 	_ = t.Walk(func(path []string, _ *ctree.Leaf, val interface{}) error {
-		x, ok := val.(int64)
+		x, ok := unval(val)
 		if !ok {
 			x = -999
 		}
@@ -83,6 +84,7 @@ func pathKey(p []string) string { return fmt.Sprintf("%q", p) }
 
 // runWorkload executes one workload and returns its windows.
 func runWorkload(wl Workload) []Window {
+	boxed = wl.Box
 	r := vh.NewRand(wl.Seed)
 	t := &ctree.Tree{}
 	var tick int64
@@ -194,7 +196,7 @@ func runWorkload(wl Workload) []Window {
 			if l == nil {
 				continue
 			}
-			if _, ok := l.Value().(int64); ok {
+			if _, ok := unval(l.Value()); ok {
 				handles[pathKey(lp)] = l
 			}
 		}
